@@ -225,6 +225,19 @@ def run_op(run, op):
     elif name == "subs" and cls in ("cat", "monoidal", "rigid"):
         import sympy
         run.add(x.subs(sympy.Symbol("x"), 1), "subs")
+        if not isinstance(x, cat.Sum):
+            # symbols in, symbols out: every view of the result (boxes,
+            # layers, later slices and daggers) shows the substituted boxes
+            y, phi = common.substituted(x)
+            run.add(y, "subs of symbolic boxes")
+            require(phi not in y.free_symbols, "C01:subs-left-a-symbol",
+                    lambda: str(y))
+            if n:
+                run.add(y[n // 2:], "slice after subs")
+                for part in (y[:n // 2], y[n // 2:]):
+                    require(all(phi not in b.free_symbols
+                                for b in part.boxes),
+                            "C01:stale-boxes-after-subs", lambda: repr(part))
     elif name == "downgrade" and mono and cls in ("monoidal", "rigid"):
         run.add(x.downgrade(), "downgrade")
     elif name == "open_bubbles" and mono and cls in ("monoidal", "rigid"):
@@ -571,6 +584,18 @@ def check_nearmiss(case):
     else:
         other = specs.ident(cls, bad)
         refuse(lambda: specs.ident(cls, cod) + other)
+    if cls == "rigid" and cod and any(z for _, z in cod):
+        # the same names without their winding numbers, as a monoidal type:
+        # an adjoint wire is not the plain wire of that name
+        from discopy import monoidal
+        plain = monoidal.Ty(*[n for n, _ in cod])
+        flat = monoidal.Box("g", plain, plain)
+        what = "{} >> monoidal box on {}".format(common.show(a), plain)
+        refuse(lambda: a >> flat)
+        refuse(lambda: flat >> a[::-1])
+        refuse(lambda: monoidal.Diagram(
+            a.downgrade().dom, plain, a.downgrade().boxes + [flat],
+            a.offsets + [0]))
     nested = any(isinstance(x, dict) for x in cod)
     return dict(nt=True, labels=[cls, case["side"]]
                 + (["nested-slash"] if nested else []), show=what)
